@@ -225,15 +225,24 @@ _RC = {}
 SYM = {"A": (0.2, 0.0), "B": (0.8, 0.0), "C": (3.0, 0.0), "H": (0.8, 1.5707963267948966), "Q": (0.8, 2.356194490192345), "F": None}  # Q: heading 135 deg off (weight 1/4)
 
 
-def _sym_result(sym, rank):
-    key = (sym, rank)
+# pose "map": the same results expressed in the map frame by an ego heading that puts the ground truth's map yaw just below
+# +pi, so that the estimates' yaws lie on the other side of the -pi / +pi cut (heading similarity is a property of the pair,
+# not of the frame the pair is written in)
+MAP_EGO = [120.0, -45.0, 2.8]
+
+
+def _sym_result(sym, rank, pose="bl"):
+    key = (sym, rank, pose)
     if key not in _RC:
         from perception_eval.evaluation.result.object_result import DynamicObjectWithPerceptionResult
 
         g = {"p": [10.0, 5.0, 0.0], "yaw": 0.3, "size": [2.0, 4.0, 1.5], "label": "car", "score": 1.0}
         spec = SYM[sym]
         e = {"p": [10.0 + (spec[0] if spec else 0.0), 5.0, 0.0], "yaw": 0.3 + (spec[1] if spec else 0.0), "size": [2.0, 4.0, 1.5], "label": "car", "score": 1.0 - (rank + 1) / 64.0}
-        _RC[key] = DynamicObjectWithPerceptionResult(D.obj3d(e), D.obj3d(g) if spec else None)
+        if pose == "map":
+            _RC[key] = DynamicObjectWithPerceptionResult(D.obj3d(e, "map", MAP_EGO), D.obj3d(g, "map", MAP_EGO) if spec else None, transforms=D.transforms(MAP_EGO))
+        else:
+            _RC[key] = DynamicObjectWithPerceptionResult(D.obj3d(e), D.obj3d(g) if spec else None)
     return _RC[key]
 
 
@@ -247,6 +256,8 @@ def gen_rankings(tier):
             for extra in (0, 2):
                 if with_gt + extra > 0:
                     yield {"r": "".join(syms), "gt": with_gt + extra}
+                    if n < maxlen:
+                        yield {"r": "".join(syms), "gt": with_gt + extra, "pose": "map"}
 
 
 @CHECK.enum("rankings_exhaustive", gen_rankings)
@@ -255,7 +266,8 @@ def rankings_exhaustive(ctx, d):
     from perception_eval.evaluation.metrics.detection.ap import Ap
     from perception_eval.evaluation.metrics.detection.tp_metrics import TPMetricsAp, TPMetricsAph
 
-    results = [_sym_result(s, i) for i, s in enumerate(d["r"])]
+    results = [_sym_result(s, i, d.get("pose", "bl")) for i, s in enumerate(d["r"])]
+    ctx.cls("pose:" + d.get("pose", "bl"))
     car = D.label_type("car")
     prev = None
     vals = []
